@@ -102,14 +102,40 @@ fn history<const D: usize>(hid: usize, rng: &mut Rng, out: &mut Out, steps: usiz
     emit(&format!("y{D}_{hid}_0"), &mut w, "build", out, stale_v, stale_c);
     for s in 1..=steps {
         let cells_before: Vec<CellKey> = w.dt.cells().map(|(k, _)| k).collect();
-        let op = match rng.below(6) {
+        let op = match rng.below(8) {
+            6 => {
+                // Edit-API vertex insertion (k = 1 flip) at a dyadic interior point of a random cell
+                use delaunay::triangulation::flips::BistellarFlips;
+                let cks: Vec<CellKey> = w.dt.cells().map(|(k, _)| k).collect();
+                let ck = *rng.pick(&cks);
+                let vks = w.dt.tds().get_cell(ck).map(|c| c.vertices().to_vec()).unwrap_or_default();
+                let mut p = [0.0f64; D];
+                let denom = if D % 2 == 0 { 16.0 } else { 8.0 };
+                let wts = [1.0, 2.0, 1.0, 4.0, 2.0, 1.0, 1.0];
+                let mut wsum = 0.0;
+                for (j, vk) in vks.iter().enumerate() {
+                    if let Some(v) = w.dt.tds().get_vertex_by_key(*vk) { for i in 0..D { p[i] += wts[j % 7] * v.point().coords()[i] / denom; } }
+                    wsum += wts[j % 7];
+                }
+                // remaining weight goes to the first vertex so that the weights sum to 1
+                if let Some(v0) = vks.first().and_then(|k| w.dt.tds().get_vertex_by_key(*k)) { for i in 0..D { p[i] += (denom - wsum) * v0.point().coords()[i] / denom; } }
+                let v = w.vertex(p, rng);
+                let _ = crate::common::catch(|| w.dt.flip_k1_insert(ck, v).is_ok());
+                "flip_k1_insert"
+            }
+            7 => {
+                use delaunay::triangulation::flips::BistellarFlips;
+                let keys = w.live_keys();
+                if keys.len() > D + 2 { let vk = *rng.pick(&keys); let _ = crate::common::catch(|| w.dt.flip_k1_remove(vk).is_ok()); if !w.dt.tds().contains_vertex_key(vk) { stale_v = Some(vk); } }
+                "flip_k1_remove"
+            }
             0 | 1 => { let (p, _) = w.pick_point(rng, 8); let _ = w.do_insert(p, false, rng); "insert" }
             2 => { let keys = w.live_keys(); if keys.len() > D + 2 { let vk = *rng.pick(&keys); let _ = w.do_remove(Some(vk), rng); if !w.dt.tds().contains_vertex_key(vk) { stale_v = Some(vk); } } "remove" }
             3 | 4 => { let _ = w.do_flip(rng); "flip" }
             _ => { let _ = crate::common::catch(|| w.dt.repair_delaunay_with_flips().is_ok()); "repair" }
         };
         if let Some(k) = cells_before.into_iter().find(|k| !w.dt.tds().contains_cell(*k)) { stale_c = Some(k); }
-        if w.dt.number_of_cells() > 0 && w.dt.as_triangulation().is_valid().is_err() && op != "flip" { break; }
+        if w.dt.number_of_cells() > 0 && w.dt.as_triangulation().is_valid().is_err() && !op.starts_with("flip") { break; }
         if w.dt.number_of_cells() == 0 { break; }
         emit(&format!("y{D}_{hid}_{s}"), &mut w, op, out, stale_v, stale_c);
     }
